@@ -92,3 +92,40 @@ func VerifRegistryReentrant(n int) {
 	vAssert(refEq(got, want), "same bytes as the sequential composition")
 	vReach("end")
 }
+
+// VerifRegistrySharedState (C13): a registry with a literal, a pattern (a/[bc]) and a second pattern ([ab]/c) entry; one
+// call through a symbolic entry point with a symbolic 3-byte media type runs under the write-set monitor: no entry point
+// stores into the registry (or any other memory that existed before the call); afterwards Match answers as before.
+func VerifRegistrySharedState(n int) {
+	m := New()
+	m.AddFunc("a/b", verifInnerStub)
+	m.AddFuncRegexp(verifP0, verifInnerStub)
+	m.AddFuncRegexp(verifP1, verifInnerStub)
+	mt := []byte{vByteRange("t0", 'a', 'c'), '/', vByteRange("t2", 'a', 'c')}
+	mts := string(mt)
+	in := vBytes("in", n+1)[:n]
+	p0, _, f0 := m.Match(mts)
+	entry := vChoice("entry", 5)
+	vMonitorBegin()
+	vMonitorAllow(in[:cap(in)])
+	switch entry {
+	case 0:
+		m.Minify(mts, &vWriter{}, &vReader{b: in})
+	case 1:
+		m.Bytes(mts, in)
+	case 2:
+		m.String(mts, string(in))
+	case 3:
+		m.MinifyMimetype(mt, &vWriter{}, &vReader{b: in}, nil)
+	default:
+		m.Match(mts + "; q=1")
+	}
+	k := vMonitorEnd()
+	if k != 0 {
+		vFail("C13: write to memory shared between calls: " + vMonitorMsg())
+	}
+	p1, _, f1 := m.Match(mts)
+	vAssert(p0 == p1 && (f0 == nil) == (f1 == nil), "Match answers the same before and after a call")
+	vOutputBool("found", f1 != nil)
+	vReach("end")
+}
